@@ -229,7 +229,8 @@ def report(ctx, kind, det, path):
         raise HarnessError(f"C05 failure not reproducible: {kind} {det} "
                            f"-> {again}")
     n = len(m)
-    sig = f"{'TourLength.evaluate' if kind in ('len', 'raise') else 'Instance'}|{KINDS[kind]}|{_shape(m)}"  # noqa
+    site = "TourLength.evaluate" if kind in ("len", "raise") else "Instance"
+    sig = f"{site}|{KINDS[kind]}|{_shape(m)}"
     if kind == "dtype":
         sig += f"|multiplier{'=1' if det['mult'] == 1 else '>1'}"
     text = (f"{KINDS[kind]}: n={n} matrix={m} multiplier={det['mult']} "
@@ -471,6 +472,7 @@ def run(ctx: Ctx) -> None:
     if not quick:
         parts += [(4, [0, 1, B - 1, B], False) for B in
                   (31, 32, 127, 8191, 8192, 2 ** 29 - 1, 2 ** 29, 10 ** 12)]
+        parts += [(4, [0, 1, 2, 31, 32], False)]
         parts += [(5, [0, 1, B], True) for B in B_4]
         parts += [(5, [0, B], False) for B in (25, 26, 6553, 6554, 10 ** 12)]
     for n, values, symmetric in parts:
